@@ -70,3 +70,18 @@ Example C11_example :
   matching rm g 7 = [[1;2]; [1;2;3]] /\
   AlgebraProofs.V N.eqb rm g (mk_ucfg Should true false [URegex 7] [UNamed [1;4]]) = Pass.
 Proof. split; vm_compute; reflexivity. Qed.
+
+(* K3 (known finding): for the two 'anything' aliases the regex form is NOT its expansion when the regex matches a module
+   together with its own sub modules: nodes 1, 1.2, 1.2.3, 1.4, 1.4.5; import 1.2.3 -> 1.4.5; pattern #1 matches 1.2 and 1.2.3.
+   'modules matching #1 should not import anything' passes, 'modules named 1.2, 1.2.3 should not import anything' fails
+   (named lists are reduced to their top-most modules when the alias is rewritten; regex matches are expanded afterwards). *)
+Theorem C11_regex_anything_refuted :
+  exists (g : @graph N) (rm : N -> list N -> bool),
+    (forall n, rm 1%N n = Names.prefixb N.eqb [1;2]%N n) /\
+    verdict N.eqb rm g (any_cfg true [URegex 1%N]) = Pass /\
+    verdict N.eqb rm g (any_cfg true [UNamed [1;2]%N; UNamed [1;2;3]%N]) <> Pass.
+Proof.
+  exists {| nodes := [[1]; [1;2]; [1;2;3]; [1;4]; [1;4;5]]%N; imps := [([1;2;3], [1;4;5])]%N |}, (fun _ n => Names.prefixb N.eqb [1;2]%N n).
+  split; [reflexivity|]. split; [vm_compute; reflexivity|vm_compute; discriminate].
+Qed.
+Print Assumptions C11_regex_anything_refuted.
